@@ -1,20 +1,23 @@
 (* C18 — exported theorems only: each is closed by [exact] and followed by Print Assumptions. *)
 From Coq Require Import String List ZArith Bool.
-From Verif Require Import C18.Model C18.Spec C18.Proofs_Pass C18.Proofs_Round C18.Proofs_Gate
+From Verif Require Import C18.Model C18.Spec C18.Proofs_Vec C18.Proofs_Pass C18.Proofs_Round C18.Proofs_Gate
   C18.Proofs_Check C18.Proofs_Stop.
 Import ListNotations.
 Open Scope Z_scope.
 
 (* MAIN: for every configuration, node set and finite history of Balance rounds (pod names
-   unique on a node), the Evict calls of the model satisfy the property in every round:
+   unique on a node, reported usages not negative), the Evict calls of the model satisfy the property in every round:
    each call is on a node classified high / prod-high whose running estimate is above the
    high threshold at that moment, a low node exists for the pass, all headroom dimensions are
-   still positive, the pod is one of the node's pods and passes the filters; nothing is
+   still positive, the pod is one of the node's pods, passes the filters and (NodeFit) reports
+   usage that fits under the high threshold of some target; nothing is
    evicted in dry-run mode or when no node is overloaded / none is underused / all are; and with
    anomaly gating a node is evicted from only after K earlier source rounds. *)
-Theorem c18_main : forall c ns rounds,
-  wf_rounds rounds = true -> C18_holds c ns rounds (map fst (run c ns rounds ([], []))).
-Proof. exact main_holds. Qed.
+(* [fx] selects the code variant: false = without, true = with the repair of finding
+   C18-anomaly-not-consecutive ([Model.reset_on_normal] says which one /repo contains) *)
+Theorem c18_main : forall fx c ns rounds,
+  wf_rounds rounds = true -> C18_holds c ns rounds (map fst (run_gen fx c ns rounds ([], []))).
+Proof. exact main_holds_gen. Qed.
 Print Assumptions c18_main.
 
 (* the decision procedure run on the implementation's observable decides exactly that Prop *)
@@ -23,8 +26,8 @@ Theorem c18_prop_code_decides : forall c ns rounds obs,
 Proof. exact prop_code_iff. Qed.
 Print Assumptions c18_prop_code_decides.
 
-Theorem c18_main_code : forall c ns rounds,
-  wf_rounds rounds = true -> prop_code c ns rounds (map fst (run c ns rounds ([], []))) = 0.
+Theorem c18_main_code : forall fx c ns rounds,
+  wf_rounds rounds = true -> prop_code c ns rounds (map fst (run_gen fx c ns rounds ([], []))) = 0.
 Proof. exact main_prop_code. Qed.
 Print Assumptions c18_main_code.
 
@@ -39,7 +42,7 @@ Theorem c18_every_eviction : forall c tbl prod st evs st',
     find_row x tbl = Some r /\ rcls r = src_cls prod /\
     over (uget x (fst stm)) (r_high prod r) = true /\
     targets prod tbl <> [] /\ all_pos (snd stm) = true /\
-    find_pod pv (r_pods prod r) = Some p /\ pfilt_ok p = true.
+    find_pod pv (r_pods prod r) = Some p /\ pfilt_ok p = true /\ fit_ok c prod tbl p = true.
 Proof. exact valid_pass_event. Qed.
 Print Assumptions c18_every_eviction.
 
@@ -72,43 +75,70 @@ Theorem c18_init_state_dims : forall d tbl prod avail,
 Proof. exact init_state_dims. Qed.
 Print Assumptions c18_init_state_dims.
 
+Theorem c18_table_wf : forall c ns rs, wf_round rs = true -> tbl_wf c (table c ns rs).
+Proof. exact table_wf. Qed.
+Print Assumptions c18_table_wf.
+
 (* c18_nothing_when *)
-Theorem c18_nothing_when : forall c ns rs ds,
+Theorem c18_nothing_when : forall fx c ns rs ds,
   wf_round rs = true ->
-  nothing_cond (table c ns rs) (pool_size c ns rs) = true -> fst (balance c ns rs ds) = [].
+  nothing_cond (table c ns rs) (pool_size c ns rs) = true -> fst (balance_gen fx c ns rs ds) = [].
 Proof. exact nothing_when. Qed.
 Print Assumptions c18_nothing_when.
 
-Theorem c18_dry_run_silent : forall c ns rs ds,
-  wf_round rs = true -> cdry c = true -> fst (balance c ns rs ds) = [].
+Theorem c18_dry_run_silent : forall fx c ns rs ds,
+  wf_round rs = true -> cdry c = true -> fst (balance_gen fx c ns rs ds) = [].
 Proof. exact dry_run_silent. Qed.
 Print Assumptions c18_dry_run_silent.
 
-(* c18_anomaly_gate, multi-round: detector invariant carried through one Balance round from
-   ANY detector state satisfying it ... *)
-Theorem c18_detector_round : forall c tbl psize ds h,
-  tbl_wf tbl -> dstate_inv c h ds ->
-  dstate_inv c (tbl :: h) (snd (process_pool c tbl psize ds)) /\
-  gate_holds c h tbl (fst (process_pool c tbl psize ds)).
+(* c18_anomaly_gate, multi-round: the detector invariant (counter <= mu, anomaly state only
+   after more than K) is carried through one Balance round from ANY cache state satisfying the
+   round's precondition, for any measure mu of "rounds as a source" that is non-negative and
+   grows by one in a source round *)
+Theorem c18_detector_round : forall c mu,
+  (forall prod x h, 0 <= mu prod x h) ->
+  (forall prod x t h, was_src prod x t = true -> mu prod x (t :: h) = 1 + mu prod x h) ->
+  forall tbl psize ds h,
+  tbl_wf c tbl -> pre_inv c mu tbl h ds ->
+  dstate_inv c mu (tbl :: h) (snd (process_pool c tbl psize ds)) /\
+  gate_mu c mu h tbl (fst (process_pool c tbl psize ds)).
 Proof. exact process_pool_gate. Qed.
 Print Assumptions c18_detector_round.
 
-(* ... hence in the i-th round of any history, with ConsecutiveAbnormalities = K <> 1, every
-   Evict call is on a node that was a source (of the same kind) in at least K of the rounds
-   0..i-1, and is one in round i *)
-Theorem c18_anomaly_gate : forall c ns rounds i tbl ps evs,
+(* both variants: in the i-th round of any history, with ConsecutiveAbnormalities = K <> 1, every
+   Evict call is on a node that is a source in round i and was one (of the same kind) in at
+   least K of the rounds 0..i-1 *)
+Theorem c18_anomaly_gate_counting : forall fx c ns rounds i tbl ps evs,
   wf_rounds rounds = true ->
   nth_error (tables c ns rounds) i = Some (tbl, ps) ->
-  nth_error (map fst (run c ns rounds ([], []))) i = Some evs ->
+  nth_error (map fst (run_gen fx c ns rounds ([], []))) i = Some evs ->
   round_holds c tbl ps evs /\
   gate_holds c (rev (map fst (firstn i (tables c ns rounds))) ++ []) tbl evs.
 Proof.
-  exact (fun c ns rounds i tbl ps evs H => hist_holds_nth c _ _ [] i tbl ps evs (main_holds c ns rounds H)).
+  exact (fun fx c ns rounds i tbl ps evs H => hist_holds_nth c _ _ [] i tbl ps evs (main_holds_gen fx c ns rounds H)).
+Qed.
+Print Assumptions c18_anomaly_gate_counting.
+
+(* FULL STRENGTH, repaired variant: ... and was one in each of the K rounds i-K..i-1
+   (strict_gate_holds: K <= length of the run of source rounds that ends at round i-1) *)
+Theorem c18_anomaly_gate : forall c ns rounds i tbl ps evs,
+  wf_rounds rounds = true ->
+  nth_error (tables c ns rounds) i = Some (tbl, ps) ->
+  nth_error (map fst (run_gen true c ns rounds ([], []))) i = Some evs ->
+  strict_gate_holds c (rev (map fst (firstn i (tables c ns rounds))) ++ []) tbl evs.
+Proof.
+  exact (fun c ns rounds i tbl ps evs H => strict_hist_nth c _ _ [] i tbl ps evs (strict_holds_fixed c ns rounds H)).
 Qed.
 Print Assumptions c18_anomaly_gate.
 
-(* the detector counts source rounds, it does not require them to be consecutive: the strict
-   reading of the gate is refuted by the faithful model (finding C18-anomaly-not-consecutive) *)
+Theorem c18_strict_code_fixed : forall c ns rounds,
+  wf_rounds rounds = true -> strict_code c ns rounds (map fst (run_gen true c ns rounds ([], []))) = 0.
+Proof. exact main_strict_code_fixed. Qed.
+Print Assumptions c18_strict_code_fixed.
+
+(* WITHOUT the repair the detector counts source rounds, it does not require them to be
+   consecutive: the strict reading of the gate is refuted by the faithful model of the
+   unrepaired code (finding C18-anomaly-not-consecutive) *)
 Definition ex_cfg : cfg :=
   mkCfg 0 false false false false true 2 1
         [mkThr4 (-1) (-1) (-1) (-1); mkThr4 30 60 (-1) (-1); mkThr4 (-1) (-1) (-1) (-1)] [0; 1; 0].
@@ -121,8 +151,9 @@ Definition ex_rounds : list (list nround) := [ex_round 800; ex_round 800; ex_rou
 Theorem c18_gate_consecutive_refuted :
   exists c ns rounds,
     wf_rounds rounds = true /\
-    map fst (run c ns rounds ([], [])) = [[]; []; []; [(1, 1)]] /\
-    strict_code c ns rounds (map fst (run c ns rounds ([], []))) = 7.
+    map fst (run_gen false c ns rounds ([], [])) = [[]; []; []; [(1, 1)]] /\
+    strict_code c ns rounds (map fst (run_gen false c ns rounds ([], []))) = 7 /\
+    map fst (run_gen true c ns rounds ([], [])) = [[]; []; []; []].
 Proof. exists ex_cfg, ex_nodes, ex_rounds. vm_compute. repeat split. Qed.
 Print Assumptions c18_gate_consecutive_refuted.
 
@@ -130,7 +161,8 @@ Print Assumptions c18_gate_consecutive_refuted.
 Example c18_nonvacuous_wf : wf_rounds ex_rounds = true.
 Proof. reflexivity. Qed.
 Example c18_nonvacuous_evicts :
-  map fst (run ex_cfg ex_nodes [ex_round 800; ex_round 800; ex_round 800] ([], [])) = [[]; []; [(1, 1)]]
+  map fst (run_gen false ex_cfg ex_nodes [ex_round 800; ex_round 800; ex_round 800] ([], [])) = [[]; []; [(1, 1)]]
+  /\ map fst (run_gen true ex_cfg ex_nodes [ex_round 800; ex_round 800; ex_round 800] ([], [])) = [[]; []; [(1, 1)]]
   /\ prop_code ex_cfg ex_nodes [ex_round 800; ex_round 800; ex_round 800] [[]; []; [(1, 1)]] = 0
   /\ prop_code ex_cfg ex_nodes [ex_round 800; ex_round 800; ex_round 800] [[]; [(1, 1)]; []] = 6
   /\ prop_code ex_cfg ex_nodes [ex_round 800; ex_round 800; ex_round 800] [[]; []; [(2, 1)]] = 1.
@@ -138,3 +170,18 @@ Proof. vm_compute. repeat split. Qed.
 Example c18_nonvacuous_nothing :
   nothing_cond (table ex_cfg ex_nodes (ex_round 500)) (pool_size ex_cfg ex_nodes (ex_round 500)) = true.
 Proof. vm_compute. reflexivity. Qed.
+
+(* NodeFit on: node 1's only pod (80 % of the memory) on top of node 2's 10 % does not fit under
+   node 2's 60 % -> nothing is evicted, and the decision procedure rejects an observable that
+   does (clause 10); of two 40 % pods only the first fits once its usage is reserved *)
+Definition ex_cfg_fit : cfg :=
+  mkCfg 0 false true false false false 0 0
+        [mkThr4 (-1) (-1) (-1) (-1); mkThr4 30 60 (-1) (-1); mkThr4 (-1) (-1) (-1) (-1)] [0; 1; 0].
+Definition ex_round_fit (other : Z) : list nround :=
+  [mkNround false 1 0 0 [mkPod 1 5000 true 100 800 7 true]; mkNround false 1 0 other []].
+Example c18_nonvacuous_nodefit :
+  map fst (run_gen false ex_cfg_fit ex_nodes [ex_round_fit 100] ([], [])) = [[]]
+  /\ prop_code ex_cfg_fit ex_nodes [ex_round_fit 100] [[(1, 1)]] = 10
+  /\ map fst (run_gen false ex_cfg_fit ex_nodes [[mkNround false 1 0 0 [mkPod 1 5000 true 100 400 7 true; mkPod 2 5001 true 0 400 7 true];
+                                        mkNround false 1 0 100 []]] ([], [])) = [[(1, 1)]].
+Proof. vm_compute. repeat split. Qed.
